@@ -119,6 +119,8 @@ func (m psMsg) tok() string {
 			p = fmt.Sprintf("valid %d %d %d %s", m.PConn, m.PBack, m.PA, b01(m.PCodeOk))
 		case "garbage":
 			p = fmt.Sprintf("garbage %d", m.N)
+		case "long":
+			p = "garbage 78" // for the model: just another proof that does not prove the code
 		case "public":
 			p = "garbage 77" // for the model: just another proof that does not prove the code
 		}
@@ -280,6 +282,8 @@ func (e *psEnv) concretise(conn int, m psMsg) []byte {
 			proof = e.client(m.PConn, m.PBack, m.PA, m.PCodeOk).M1
 		case "garbage":
 			proof = randBytes(e.r, 64)
+		case "long": // not 64 bytes: one too many, far too many, one too few
+			proof = randBytes(e.r, []int{65, 200, 63, 128}[m.N%4])
 		case "public":
 			// the proof anybody can compute from public values: M1 over this A with an EMPTY session key — what a server
 			// whose key computation failed (and was not aborted) would compare against
@@ -645,7 +649,13 @@ func psCorpus() [][]psStep {
 	zeroM5n.Neutral, nilM5n.Neutral = true, true
 	replayM3, replayM5 := validM3(0, 0), genuineM5(0, 0, 7, 9)
 	replayM3.PBack, replayM5.KS.Back, replayM5.SigS.Back = 1, 1, 1
+	longP := func(n int) psMsg { return psMsg{Kind: "m3", AGood: true, AN: 0, ProofKind: "long", N: n} }
 	return [][]psStep{
+		// a proof of the wrong length, then a key exchange anybody can make (whatever the first does to the handler, it
+		// must not leave the exchange at "proof accepted")
+		{{0, psMsg{Kind: "m1"}}, {0, longP(0)}, {0, zeroM5n}},
+		{{0, psMsg{Kind: "m1"}}, {0, longP(1)}, {0, nilM5n}},
+		{{0, psMsg{Kind: "m1"}}, {0, longP(2)}, {0, zeroM5n}},
 		// the messages of a completed exchange sent again after a new start request on the same connection (F43): in the
 		// second exchange nobody proves the setup code
 		{{0, psMsg{Kind: "m1"}}, {0, validM3(0, 0)}, {0, genuineM5(0, 0, 7, 9)}, {0, psMsg{Kind: "m1"}}, {0, psMsg{Kind: "m1"}}, {0, replayM3}, {0, replayM5}},
@@ -684,6 +694,8 @@ func checkC02(c *Ctx) {
 		"concretised with the harness's own SRP client and run against the real endpoint. non-trivial = history reaches an accepted proof (M4 success). " +
 		"distinct = distinct symbolic histories")
 	c.Assume("SRP-6a / HKDF / ChaCha20-Poly1305 / Ed25519 behave like the free term algebra of HcModel/PairSetup.lean (idealisation; exercised on the real primitives)")
+	c02Race(c)
+	c02Repin(c)
 	type hcase struct {
 		id    string
 		nconn int
@@ -875,4 +887,117 @@ func checkC02(c *Ctx) {
 			c.Sample(map[string]interface{}{"history": toks, "observed": implObs[ci]})
 		}
 	}
+}
+
+// c02Race: two connections start pair-setup at the same moment; one sends a start and then a proof message (valid SRP
+// key, random proof — computing the answer takes milliseconds), the other keeps sending a key exchange anybody can make
+// (all-zero key, neutral-element long-term key with its trivial signature). Free-running (the interleaving is the
+// scheduler's): whatever the two connections share must not let the second one's message meet the moment in which the
+// first one's exchange looks as if the proof had been accepted. Nothing may be stored.
+func c02Race(c *Ctx) {
+	id := "race#0"
+	if c.Skip(id) {
+		return
+	}
+	r := c.CaseRng("race", 0)
+	a := accessory.NewSwitch(accessory.Info{Name: "Sw"})
+	f, err := newAccFixtureDB(c, "00102003", func(d db.Database) db.Database { return &loggingDB{Database: d} }, a.Accessory)
+	if err != nil {
+		c.Violate("pair-setup fixture cannot be built", id, nil, "fixture", err.Error())
+		return
+	}
+	defer f.Close()
+	ldb := f.db.(*loggingDB)
+	env := &psEnv{f: f, ldb: ldb, r: rand.New(rand.NewSource(r.Int63())), pw: f.pin, ids: map[int]*refIdentity{}, names: map[int]string{}}
+	zero := genuineM5(0, 0, 7, 9)
+	zero.KKind, zero.SigS, zero.Neutral = "zero", psSRef{Nil: true}, true
+	m5 := env.concretise(0, zero)
+	m1 := tlvMsg(tlvOp{tState, b1(1)}, tlvOp{tMethod, b1(0)})
+	rounds := c.Pick(25, 400)
+	ldb.take() // the accessory's own entity, stored when the fixture was built
+	stored := 0
+	var first string
+	for k := 0; k < rounds && stored == 0; k++ {
+		addrA, addrB := fmt.Sprintf("10.3.%d.1:7000", k%250), fmt.Sprintf("10.3.%d.2:7000", k%250)
+		f.Conn(addrA)
+		f.Conn(addrB)
+		cl := newRefSRPClient(rand.New(rand.NewSource(int64(k))), "Pair-Setup", "999-99-999")
+		m3 := tlvMsg(tlvOp{tState, b1(3)}, tlvOp{tPubKey, cl.Abytes()}, tlvOp{tProof, randBytes(r, 64)})
+		var wg sync.WaitGroup
+		start := make(chan struct{})
+		wg.Add(2)
+		go func() {
+			defer wg.Done()
+			<-start
+			for t := 0; t < 3; t++ {
+				f.Do(addrA, "POST", "/pair-setup", "application/pairing+tlv8", m1)
+				f.Do(addrA, "POST", "/pair-setup", "application/pairing+tlv8", m3)
+			}
+		}()
+		go func() {
+			defer wg.Done()
+			<-start
+			f.Do(addrB, "POST", "/pair-setup", "application/pairing+tlv8", m1)
+			for t := 0; t < 40; t++ {
+				f.Do(addrB, "POST", "/pair-setup", "application/pairing+tlv8", m5)
+			}
+		}()
+		close(start)
+		wg.Wait()
+		if saves, _ := ldb.take(); len(saves) > 0 {
+			stored += len(saves)
+			first = fmt.Sprintf("round %d: stored %q with key %s", k, saves[0].Name, hx(saves[0].PublicKey))
+		}
+		f.CloseConn(addrA)
+		f.CloseConn(addrB)
+	}
+	if stored > 0 {
+		c.Violate("pair-setup stored a pairing without a valid setup-code proof and authenticated key exchange in this exchange", id,
+			map[string]interface{}{"connection_1": "start, then proof messages with a valid SRP key and a random proof", "connection_2_at_the_same_time": "start, then key exchanges sealed under the all-zero key carrying the neutral element as long-term key", "rounds": rounds},
+			"store unchanged", first)
+	}
+	c.Count(id, true, "stream:race")
+}
+
+// c02Repin: the same accessory (same name, same process) is set up again with ANOTHER setup code — what an application
+// does when the user changes the code. From then on the old code proves nothing and the new one does.
+func c02Repin(c *Ctx) {
+	id := "repin#0"
+	if c.Skip(id) {
+		return
+	}
+	r := c.CaseRng("repin", 0)
+	pins := []string{"00102003", "81726354"}
+	for round, pin := range pins {
+		a := accessory.NewSwitch(accessory.Info{Name: "Sw"})
+		f, err := newAccFixture(c, pin, a.Accessory)
+		if err != nil {
+			c.Violate("pair-setup fixture cannot be built", id, nil, "fixture", err.Error())
+			return
+		}
+		try := func(code string, k int) string {
+			addr := fmt.Sprintf("10.4.%d.%d:7000", round, k)
+			post := f.Post(addr)
+			ident := newRefIdentity(r, fmt.Sprintf("ctrl-%d-%d", round, k))
+			res := refPairSetup(r, post, code, ident)
+			f.CloseConn(addr)
+			if res.ErrAt == "" {
+				return "paired"
+			}
+			return "refused at " + res.ErrAt
+		}
+		cur := pin[:3] + "-" + pin[3:5] + "-" + pin[5:]
+		in := map[string]interface{}{"setup_codes_in_order": pins, "accessory_name": f.name, "now_configured": pin}
+		if round > 0 {
+			old := pins[round-1][:3] + "-" + pins[round-1][3:5] + "-" + pins[round-1][5:]
+			if got := try(old, 0); got == "paired" {
+				c.Violate("pair-setup accepted an SRP proof that does not prove the setup code", id, in, "the previous setup code is refused", "a controller using the previous code was paired")
+			}
+		}
+		if got := try(cur, 1); got != "paired" {
+			c.Violate("pair-setup refuses the setup code the accessory is configured with (after the code was changed)", id, in, "paired", got)
+		}
+		f.Close()
+	}
+	c.Count(id, true, "stream:repin")
 }
